@@ -131,13 +131,15 @@ class Backend:
 class ModelBackend(Backend):
     real = False
 
-    def __init__(self, engine, base="/mnt", summarise_c4=True, listing="reversed", xsd=None):
+    def __init__(self, engine, base="/mnt", summarise_c4=True, listing="reversed", xsd=None, symbolic_order=False):
         from . import world as W, tokens
         tokens.reset()
+        tokens.Dig.symbolic_order = symbolic_order
         self.W = W
         self.e = engine
         self.world = W.World()
         self.world.listing = listing
+        self.world.hm.concrete_ids = not symbolic_order
         self.base = base
         self.world.mkdirs(base)
         self.world.cwd = base
@@ -147,6 +149,8 @@ class ModelBackend(Backend):
         self.notes = []
 
     def close(self):
+        from . import tokens
+        tokens.Dig.symbolic_order = False
         self.ins.restore()
 
     def note(self, text):
@@ -249,6 +253,10 @@ class ModelBackend(Backend):
         if len(data) == 0:
             return self.Hempty(fmt)
         return self.world.hm.digest(self._alg(fmt), [2, self.world.hm.bytes_id(data)])
+
+    def digests_in(self, line):
+        from . import tokens
+        return [t for t in tokens.tokens_in(line) if isinstance(t, tokens.Dig)]
 
     def digest_after(self, line, sep):
         from . import tokens
@@ -583,6 +591,10 @@ class RealBackend(Backend):
 
     def Hbytes(self, fmt, data):
         return real_digest(fmt, data)
+
+    def digests_in(self, line):
+        import re
+        return re.findall(r"(?<![0-9A-Za-z])(?:c4[1-9A-HJ-NP-Za-km-z]{88}|[0-9a-f]{8,40})(?![0-9A-Za-z])", line)
 
     def digest_after(self, line, sep):
         return line.split(sep, 1)[1].strip()
